@@ -37,8 +37,8 @@ Inductive cpc :=
 | CReady        (* still tracked, or no Shutdown running; the request is read and parsed next *)
 | CHandler      (* s.Handler(ctx) is running *)
 | CWrite        (* the handler returned; writeResponse / Flush come next *)
-| CWritten      (* response in the writer (flushed or not); idleConnTime.Store(ctx.time) comes next *)
-| CStoredT      (* marked idle; the s.stop check at the end of the loop comes next *)
+| CWritten      (* response in the writer (flushed or not); the conditional idleConnTime.Store(ctx.time) comes next *)
+| CStoredT      (* marked idle (unless in the middle of a pipeline); the s.stop check at the end of the loop comes next *)
 | CExiting      (* left the loop; reader / writer released; removal from s.idleConns comes next *)
 | CUnreg        (* removed from s.idleConns; serveConnCleanup: s.open.Add(-1) comes next *)
 | CClosed.      (* not counted any more; workerFunc closed it (or reported it hijacked) *)
@@ -332,13 +332,14 @@ Definition step (cf : cfg) (s : st) (l : label) : option st :=
           end
       | None => None
       end
-  | LStoreT c =>              (* idleConnTime.Store(ctx.time.Unix()) *)
+  | LStoreT c =>              (* if br.Buffered() == 0 && bw.Buffered() == 0 { idleConnTime.Store(ctx.time.Unix()) } (condition since ce44e94):
+                                 a connection in the middle of a pipeline stays marked active *)
       match nth_error (conns s) c with
       | Some r =>
           match pc r with
           | CWritten =>
               Some (set_conns s (upd (conns s) c
-                     (mkConn CStoredT (loopid r) (inmap r) (tstart r) (tstart r) (srvClosed r) (cliClosed r) (inflight r) (buffered r) (unflushed r)
+                     (mkConn CStoredT (loopid r) (inmap r) (if (buffered r =? 0) && (unflushed r =? 0) then tstart r else ival r) (tstart r) (srvClosed r) (cliClosed r) (inflight r) (buffered r) (unflushed r)
                              (hijack r) (started r) (delivered r) (lost r) (lostc r) (abandoned r))))
           | _ => None
           end
@@ -452,24 +453,6 @@ Fixpoint run (cf : cfg) (s : st) (tr : list label) : option st :=
 Inductive reach (cf : cfg) : st -> Prop :=
 | reach_init : reach cf init
 | reach_step s l s' : reach cf s -> step cf s l = Some s' -> reach cf s'.
-
-(* ---- the schedules on which every started handler is answered -------------------------------------------------------------
-   guard s l = true for every label except a closeIdleConns pass that would close a connection which has request data in hand:
-   received and not yet marked active (thread between Peek's read and Store(0)), buffered (pipelined), or in flight. *)
-Definition in_hand (r : conn) : bool :=
-  (0 <? buffered r) || (0 <? inflight r) || match pc r with CGotByte => true | _ => false end.
-
-Definition would_close (t : Z) (r : conn) : bool := inmap r && negb (ival r =? 0) && (ival r <=? t).
-
-Definition guard (s : st) (l : label) : bool :=
-  match l with
-  | LCloseIdle => forallb (fun r => negb (would_close (now s) r && in_hand r)) (conns s)
-  | _ => true
-  end.
-
-Inductive greach (cf : cfg) : st -> Prop :=
-| greach_init : greach cf init
-| greach_step s l s' : greach cf s -> guard s l = true -> step cf s l = Some s' -> greach cf s'.
 
 (* ---- observables ------------------------------------------------------------------------------------------------------------ *)
 Fixpoint sumf {A} (f : A -> Z) (l : list A) : Z :=
